@@ -65,6 +65,21 @@ def gen_params(rng):
             p[key] = rng.random() < 0.8 if key not in ("format__eq", "format__repr") else rng.random() < 0.5
     if rng.random() < 0.3:
         p["max_line_length"] = rng.choice([60, 79, 100, 120])
+    if rng.random() < 0.3:
+        # settings without a command line flag: they travel through the API or the configuration file
+        adv = {}
+        if rng.random() < 0.6:
+            adv["conventions.class_name.case"] = rng.choice(["pascalCase", "mixedSnakeCase", "mixedPascalCase", "originalCase"])
+        if rng.random() < 0.4:
+            adv["conventions.field_name.case"] = rng.choice(["snakeCase", "camelCase", "mixedCase"])
+        if rng.random() < 0.3:
+            adv["conventions.class_name.safe_prefix"] = rng.choice(["cls", "type", "T"])
+        if rng.random() < 0.3:
+            adv["conventions.module_name.case"] = rng.choice(["snakeCase", "pascalCase"])
+        if rng.random() < 0.4:
+            adv["substitutions"] = rng.sample([["class", "(.*)Type$", "\\1Kind"], ["field", "^name$", "title"], ["class", "^Item$", "Entry"], ["package", "urn:cyc:a", "alpha_ns"], ["module", "^b$", "bee"]], rng.choice([1, 2]))
+        if adv:
+            p["adv"] = adv
     return p
 
 
@@ -72,13 +87,18 @@ def gen_env(rng, srcs):
     env = dict(E0)
     env["hashseed"] = rng.randrange(1, 1 << 31)
     env["route"] = rng.choice(ROUTES)
+    env["_needs_file_route"] = True
     if rng.random() < 0.6:
         env["heap"] = rng.randrange(1, 1 << 30)
     if rng.random() < 0.5:
         env["dir_seed"] = rng.randrange(1, 1 << 30)
-    if rng.random() < 0.3:
-        name, path, rec, _ = rng.choice(srcs)
-        env["history"] = [{"source": path, "recursive": rec, "params": gen_params(rng), "route": rng.choice(["api", "cli_flags"])} for _ in range(rng.choice([1, 2]))]
+    if rng.random() < 0.35:
+        hist = []
+        for _ in range(rng.choice([1, 2])):
+            name, path, rec, _ = rng.choice(srcs)
+            hp = gen_params(rng)
+            hist.append({"source": "@same" if rng.random() < 0.5 else path, "recursive": rec, "params": hp, "route": "api" if "adv" in hp else rng.choice(["api", "cli_flags"])})
+        env["history"] = hist
     if rng.random() < 0.15:
         env["cache"] = 1
         env["repeat"] = 2
@@ -89,6 +109,12 @@ def gen_env(rng, srcs):
 
 def run_child(source, recursive, params, env, timeout=600.0):
     work = tempfile.mkdtemp(prefix="xsv-c12-", dir=SCRATCH)
+    env = dict(env)
+    env.pop("_needs_file_route", None)
+    if "adv" in params and env.get("route") == "cli_flags":
+        env["route"] = "cli_config"  # settings without a flag must travel in the configuration file
+    if env.get("history"):
+        env["history"] = [dict(h, source=source, recursive=recursive) if h["source"] == "@same" else h for h in env["history"]]
     try:
         spec = {"repo": core.REPO, "verif": core.VERIF, "source": source, "recursive": recursive, "params": params, "env": env, "workdir": work}
         penv = {k: v for k, v in os.environ.items() if not k.startswith("VERIF_PINNED")}
